@@ -20,3 +20,9 @@ func VerifWrapPreUpstreamMw(ctx context.Context, c *HandlersConfig) (h dnsserver
 func VerifNewContextConstructor(timeout time.Duration) (c dnsserver.ContextConstructor) {
 	return newContextConstructor(timeout)
 }
+
+// VerifNewHandlersForServers exposes the real construction of the per-server
+// handlers (rate-limit middleware with the device finder) around h.
+func VerifNewHandlersForServers(c *HandlersConfig, h dnsserver.Handler) (hs Handlers, err error) {
+	return newHandlersForServers(c, h)
+}
